@@ -52,21 +52,28 @@ def materialize(box, files, single):
             path = os.path.join(root, *rel.split("/"))
             os.remove(path)
             os.link(os.path.join(root, *b.hardlink_of.split("/")), path)
+    for d in getattr(files, "emptydirs", ()):
+        os.makedirs(os.path.join(root, *d.split("/")), exist_ok=True)
     return root, "payload"
 
 
 def links(files):
-    return {rel: b.hardlink_of for rel, b in files if getattr(b, "hardlink_of", None)}
+    """What a recorded case needs besides names and contents: hard links (rel -> other name)
+    and directories without any file (key with a trailing '/', value None)."""
+    out = {rel: b.hardlink_of for rel, b in files if getattr(b, "hardlink_of", None)}
+    out.update({d + "/": None for d in getattr(files, "emptydirs", ())})
+    return out
 
 
 def files_of_case(case):
     """Rebuild the (relpath, Blob) list of a recorded case, hard links included."""
-    out = []
+    out = gen.FileList()
     for rel, tok in case["files"]:
         blob = blob_from_token(tok)
-        if rel in (case.get("links") or {}):
+        if (case.get("links") or {}).get(rel):
             blob.hardlink_of = case["links"][rel]
         out.append((rel, blob))
+    out.emptydirs = tuple(k[:-1] for k in (case.get("links") or {}) if k.endswith("/"))
     return out
 
 
@@ -320,9 +327,13 @@ def ask_createfull(drv, slot, kind, files, pl, single, name, raw, opts=None, blo
             "1" if opts.get("private") else "0",
             _sl(opts.get("source")) if opts.get("source") else "_",
             _sl(opts.get("url_list")), _sl(opts.get("httpseeds")),
-            hx(name.encode("utf8")), "1" if single else "0", str(len(files))]
+            hx(name.encode("utf8")), "1" if single else "0",
+            str(len(files) + (0 if single else len(getattr(files, "emptydirs", ()))))]
     for rel, blob in files:
         toks += [hx(rel.encode("utf8")), blob.token()]
+    if not single:
+        for d in getattr(files, "emptydirs", ()):
+            toks += [hx((d + "/").encode("utf8")), "z0"]     # trailing '/': a directory without files
     drv.ask(" ".join(toks), slot)
 
 
